@@ -785,15 +785,18 @@ class Prover:
             explicit = {v for v, _ in edges if v is not None}
             if d[0] == "discr":
                 inner = canon(d[1])
+                v = None
                 if len(vals) == 1 and None not in vals:
                     v = list(vals)[0]
-                    some.add((inner, v))
                 elif vals == {None}:
                     # otherwise edge: discriminant not in explicit set
                     if explicit == {1}:
-                        some.add((inner, 0))
+                        v = 0
                     elif explicit == {0}:
-                        some.add((inner, 1))
+                        v = 1
+                if v is not None:
+                    some.add((inner, v))
+                    self._callee_success_facts(inner, v, facts)
                 continue
             is_bool = len(edges) == 2 and explicit == {0}
             if is_bool:
@@ -816,6 +819,46 @@ class Prover:
                     facts.append(({x: -c for x, c in l[0].items()}, v - l[1]))
         self._facts[bb] = (facts, some)
         return self._facts[bb]
+
+    def _callee_success_facts(self, inner, v, facts):
+        """`inner` (the scrutinee of a variant test) is the result of a call to a pure workspace function and this edge is the one
+        where it succeeded (Some / Ok, directly or through `?`): the comparison facts that dominate every place where the callee
+        builds its success value hold here for the arguments it was called with"""
+        from .util import subst_params
+        y, ok = inner, None
+        if y[0] == "call" and isinstance(y[1], str) and y[1].endswith("::branch") and y[2]:
+            y, ok = canon(y[2][0]), (v == 0)
+        if y[0] != "call" or not isinstance(y[1], str) or y[1] not in self.P.bodies or not is_pure_fn(self.P, y[1]):
+            return
+        fb = self.P.bodies[y[1]]
+        out_ty = _strip_ref(fb.locals[0]["ty"])
+        if ok is None:
+            ok = (v == 1) if out_ty.startswith("std::option::Option<") else (v == 0) if out_ty.startswith("std::result::Result<") else None
+        if not ok:
+            return
+        key = ("succ", y[1])
+        summ = _succ_memo.get(key)
+        if summ is None:
+            summ = []
+            fp = Prover(self.P, fb)
+            sites = [bb for bb, idx, st in fb.stmts() if st["p"] == (0,) and st.get("rv") and st["rv"]["k"] == "agg" and st["rv"].get("variant") in ("Some", "Ok")]
+            if sites and len(y[2]) == fb.arg_count:
+                common = None
+                for sb in sites:
+                    fs = {(frozenset(f[0].items()), f[1]) for f in fp.facts_at(sb)[0]}
+                    common = fs if common is None else common & fs
+                summ = [(dict(a), c) for a, c in (common or ())]
+            _succ_memo[key] = summ
+        mapping = {i + 1: a for i, a in enumerate(y[2])}
+        for atoms, c in summ:
+            nf = {}
+            for atom, coef in atoms.items():
+                na = canon(subst_params(atom, mapping))
+                l = self.lin(na)
+                for z, cz in l[0].items():
+                    nf[z] = nf.get(z, 0) + coef * cz
+                c = c + coef * l[1]
+            facts.append(({z: cz for z, cz in nf.items() if cz}, c))
 
     def _cond_facts(self, d, truth, facts, some):
         k = d[0]
@@ -1436,6 +1479,7 @@ def check_field_ranges(P, D):
 
 
 _pure = {}
+_succ_memo = {}
 _PURE_STD = re.compile(r"( as std::ops::(Add|Sub|Mul|Div|Rem|Shl|Shr|BitAnd|BitOr|BitXor|Not|Neg)[<>])|(^core::num::)|( as std::cmp::Partial(Ord|Eq))|"
                        r"(^std::time::Duration::(as_|from_|new|subsec))|(::len$)|( as std::clone::Clone>::clone$)|(^std::cmp::(min|max)$)|"
                        r"( as std::convert::(From|Into)<)")
@@ -1448,7 +1492,7 @@ def is_pure_fn(P, fid, depth=0):
         return _pure[fid]
     b = P.bodies.get(fid)
     sig = P.sigs.get(fid) or {}
-    if b is None or depth > 4 or b.kind not in ("fn", "assoc_fn") or any("&mut" in i or "&'" in i and " mut " in i for i in sig.get("inputs") or []):
+    if b is None or depth > 4 or b.kind not in ("fn", "assoc_fn"):
         _pure[fid] = False
         return False
     _pure[fid] = False   # cycles are not pure
